@@ -76,6 +76,16 @@ func DecProgs(s string) ([]Prog, error) {
 			switch {
 			case o == "c":
 				p.Close = true
+			case o == "df":
+				p.Deadline = "future"
+			case o == "dp":
+				p.Deadline = "past"
+			case len(o) >= 2 && o[0] == 'v' && o[1] >= '1' && o[1] <= '6':
+				ts, err := DecToks(o[2:])
+				if err != nil {
+					return nil, err
+				}
+				p.Ops = append(p.Ops, Op{Write: ts, Via: int(o[1] - '0')})
 			case o == "r":
 				p.Ops = append(p.Ops, Op{Read: true})
 			case strings.HasPrefix(o, "w"):
